@@ -8,7 +8,7 @@
 # the model side: both are compared as `(err)` (same step, same observations before it).
 # --an K: all cases with analysis K (3, 4: the CapDepth probes, not in the default mix); --unsound: also unions of
 # terms with different constant values.
-ROOT=/root/scratch/agA
+ROOT=/verif
 H=$ROOT/harness/target/release/verif-harness
 D=$ROOT/ocaml/driver
 EXTRA=""
